@@ -13,3 +13,8 @@ import CGV.Props.C13Tokens
 #print axioms CGV.C13.stripAux_tokens
 #print axioms CGV.C13.fold_fields
 #print axioms CGV.C13.C13_tokens
+#print axioms CGV.C13.node_step
+#print axioms CGV.C13.takeBracket_inner
+#print axioms CGV.C13.anode_step
+#print axioms CGV.C13.atom2_step
+#print axioms CGV.C13.slash_step
